@@ -64,7 +64,12 @@ pub struct Sim {
     t0: tokio::time::Instant,
     pub server_requests: u64,
     pub handler_errors: Vec<String>,
+    /// (virtual ms, method) of inline dispatches that did not return within DISPATCH_STALL_S virtual seconds
+    pub stalled_dispatch: Vec<(u64, String)>,
 }
+
+/// virtual seconds after which an inline dispatch that has not returned is declared stalled
+pub const DISPATCH_STALL_S: u64 = 900;
 
 /// Run a future on a fresh current-thread runtime whose clock is paused: timers elapse in
 /// virtual time as soon as every task is idle, so a run is a deterministic function of its script.
@@ -152,6 +157,7 @@ impl Sim {
             t0: tokio::time::Instant::now(),
             server_requests: 0,
             handler_errors: Vec::new(),
+            stalled_dispatch: Vec::new(),
         };
         let cmd_args = CmdArgs {
             communication: Communication::Stdio,
@@ -217,8 +223,10 @@ impl Sim {
                         };
                         let resp = Response { id: req.id.clone(), result: Some(result), error: None };
                         self.log.push(Event { t_ms: t, dir: Dir::ToServer, msg: Message::Response(resp.clone()) });
-                        if let Err(e) = on_response_handler(resp, &self.ctx).await {
-                            self.handler_errors.push(format!("on_response_handler: {e}"));
+                        match tokio::time::timeout(Duration::from_secs(DISPATCH_STALL_S), on_response_handler(resp, &self.ctx)).await {
+                            Ok(Ok(())) => {}
+                            Ok(Err(e)) => self.handler_errors.push(format!("on_response_handler: {e}")),
+                            Err(_) => self.stalled_dispatch.push((t, "response".to_string())),
                         }
                     }
                 }
@@ -237,16 +245,29 @@ impl Sim {
     pub async fn deliver(&mut self, msg: Message) {
         let t = self.now_ms();
         self.log.push(Event { t_ms: t, dir: Dir::ToServer, msg: msg.clone() });
-        let r = match msg {
-            Message::Request(req) => {
-                self.requests_sent.push((req.id.clone(), req.method.clone()));
-                on_request_handler(req, &mut self.ctx).await
-            }
-            Message::Notification(n) => on_notification_handler(n, &mut self.ctx).await,
-            Message::Response(r) => on_response_handler(r, &self.ctx).await,
+        // The real main loop awaits these handlers inline. If one never returns (it waits for a
+        // lock that is never released), the server is dead: detect that in VIRTUAL time — with
+        // every task blocked the paused clock jumps straight to this timeout.
+        let what = match &msg {
+            Message::Request(r) => r.method.clone(),
+            Message::Notification(n) => n.method.clone(),
+            Message::Response(_) => "response".to_string(),
         };
-        if let Err(e) = r {
-            self.handler_errors.push(format!("dispatch: {e}"));
+        if let Message::Request(req) = &msg {
+            self.requests_sent.push((req.id.clone(), req.method.clone()));
+        }
+        let ctx = &mut self.ctx;
+        let fut = async {
+            match msg {
+                Message::Request(req) => on_request_handler(req, ctx).await,
+                Message::Notification(n) => on_notification_handler(n, ctx).await,
+                Message::Response(r) => on_response_handler(r, ctx).await,
+            }
+        };
+        match tokio::time::timeout(Duration::from_secs(DISPATCH_STALL_S), fut).await {
+            Ok(Ok(())) => {}
+            Ok(Err(e)) => self.handler_errors.push(format!("dispatch: {e}")),
+            Err(_) => self.stalled_dispatch.push((t, what)),
         }
     }
 
